@@ -832,6 +832,9 @@ func (se *specEnv) call(n *SCall) Value {
 		sub.vars = map[string]specVar{}
 		for k, v := range se.vars {
 			sub.vars[k] = v
+			if !strings.HasPrefix(k, "outer_") {
+				sub.vars["outer_"+k] = v
+			}
 		}
 		for k, v := range r.Vars {
 			sub.vars[k] = v
